@@ -244,6 +244,10 @@ def atom(e: ast.AST, aliases=None) -> tuple[str, bool]:
             t = _int_truth(l, op, r)
         if t is not None:
             return (ast.unparse(t[0]), pol if t[1] else not pol)
+        # integer thresholds next to zero: `x < 1` is `x <= 0`, `x >= 1` is `x > 0` (integers; used for counts validated with `n < 1`)
+        if isinstance(r, ast.Constant) and r.value == 1 and not isinstance(r.value, bool) and isinstance(l, (ast.Name, ast.Attribute)) \
+                and isinstance(op, (ast.Lt, ast.GtE)) and (ast.unparse(l).split(".")[-1] in INT_NAMES):
+            return (f"0 < {ast.unparse(l)}", (not pol) if isinstance(op, ast.Lt) else pol)
         L, R = ast.unparse(l), ast.unparse(r)
         if isinstance(op, ast.NotEq):
             return (f"{min(L, R)} == {max(L, R)}", not pol)
@@ -343,6 +347,9 @@ def _fact_info(key: str):
 # conjuncts written out knows the predicate, and the other way round the rules can ask for the predicate whether the code calls the
 # property or spells the conjunction (a maintainer inlining the property changes nothing).  Each conjunct lists its accepted spellings.
 # The definition is checked against the code by C04/R04-e (truth table) whenever the property exists.
+# names the repository uses for validated integer counts (parameters `n`, `r`, `times`, `remaining` of anyio.itertools)
+INT_NAMES = {"n", "r", "times", "remaining", "repeat", "count"}
+
 DEFINED = {
     "self._parent_cancellation_is_visible_to_us": [
         [("self._parent_scope is None", False)],
@@ -807,6 +814,8 @@ class Explorer:
                     evs = self._ev[node.id] = list(self.events(node) or ())
             for label2, m in node.succ:
                 is_exc = label2.startswith(("exc", "raise", "reraise"))
+                if label2 == "done" and node.kind == "for_iter" and node.info.get("first_range") and (f"0 < {node.info['first_range']}", True) in facts:
+                    continue        # `for _ in range(n)` with n > 0 known on entry runs its body at least once
                 f2 = facts
                 if node.kind == "test":
                     if is_exc:
